@@ -94,8 +94,8 @@ POOL = [
 ]
 POOL_ID = {name: NCONST + 1 + k for k, (name, _, _, _) in enumerate(POOL)}
 # candidates per sort: [first, second]; constants for types and small integers for enumerations
-CAND = {"LNK": [34, 35], "T": [12, 3], "OT": [12, 3, 0], "Q": [1, 6], "DELIM": [0, 1, 2, 3, 4], "CAT": [58, 75], "PH": [8, 64, 4095],
-        "MODE": [0, 1, 2], "BM": [0, 1, 2], "RF": [0, 1], "LVL": [0, 3], "EK": [0, 1], "TV": [5, 9], "TC": [1, 2]}
+CAND = {"LNK": [34, 35], "T": [12, 3], "OT": [12, 3, 0], "Q": [1, 6], "DELIM": [0, 1, 2, 3, 4], "CAT": [58, 75], "PH": [8, 64, 4095, -1, -2049, 65536],
+        "MODE": [0, 1, 2], "BM": [0, 1, 2], "RF": [0, 1], "LVL": [0, 3, 2147483647], "EK": [0, 1], "TV": [5, 9], "TC": [1, 2]}
 for name, sorts, _, _ in POOL:
     for s in sorts.split():
         CAND.setdefault(s, []).append(POOL_ID[name])
